@@ -26,4 +26,46 @@ MUTANTS = [
         "description": "trio runner ignores falsy return values",
         "edits": [(R + "trio_runner.py", "        if value is not None:", "        if value:")],
     },
+    {
+        "name": "c03_double_start_on_later_poll",
+        "properties": ["C03"],
+        "description": "service units are not marked started: every polling cycle starts them again",
+        "edits": [(R + "service.py", "            self._started = True\n            runner.register_payload", "            runner.register_payload")],
+    },
+    {
+        "name": "c03_adopt_drops_kwargs",
+        "properties": ["C03"],
+        "description": "adopt binds positional arguments only",
+        "edits": [(R + "service.py", "            payload = functools.partial(payload, *args, **kwargs)\n        self._meta_runner.register_payload", "            payload = functools.partial(payload, *args)\n        self._meta_runner.register_payload")],
+    },
+    {
+        "name": "c03_queue_flush_loses_last",
+        "properties": ["C03"],
+        "description": "flushing the pre-start queue drops the last payload of every flavour with more than one entry",
+        "edits": [(R + "meta_runner.py", "            self.register_payload(*queue, flavour=flavour)", "            self.register_payload(*(queue[:-1] if len(queue) > 2 else queue), flavour=flavour)")],
+    },
+    {
+        "name": "c03_adopt_waits_for_thread_payload",
+        "properties": ["C03"],
+        "description": "thread runner joins the payload thread: adopt only returns when the payload finished",
+        "edits": [(R + "thread_runner.py", "        thread.start()\n", "        thread.start()\n        thread.join()\n")],
+    },
+    {
+        "name": "c03_trio_services_routed_to_asyncio_check",
+        "properties": ["C03"],
+        "description": "trio payloads submitted from inside the trio thread are started twice (sent and spawned)",
+        "edits": [(R + "trio_runner.py", "            try:\n                self._submit_tasks.send_nowait(payload)", "            try:\n                self._submit_tasks.send_nowait(payload)\n                self._submit_tasks.send_nowait(payload)")],
+    },
+    {
+        "name": "c02_trio_never_cancels",
+        "properties": ["C02"],
+        "description": "closing the trio runner no longer cancels the nursery: trio payloads are never cancelled",
+        "edits": [(R + "trio_runner.py", "            nursery.cancel_scope.cancel()", "            pass")],
+    },
+    {
+        "name": "c02_trio_thread_not_awaited",
+        "properties": ["C02"],
+        "description": "trio runs on a private daemon thread that nobody waits for: the run call returns while trio payloads still unwind",
+        "edits": [(R + "trio_runner.py", "            await self.asyncio_loop.run_in_executor(None, self._run_trio_blocking)", "            import threading\n\n            done = self.asyncio_loop.create_future()\n\n            def _bg():\n                try:\n                    self._run_trio_blocking()\n                except BaseException as err:\n                    self.asyncio_loop.call_soon_threadsafe(lambda: done.done() or done.set_exception(err))\n\n            threading.Thread(target=_bg, daemon=True).start()\n            await done")],
+    },
 ]
